@@ -19,6 +19,7 @@ import (
 %union {
 	op   string
 	expr expr
+	cond cond
 }
 
 %token<expr> NUMBER IDENT
@@ -32,7 +33,9 @@ import (
 %type<expr> postfix_expr unary_expr
 %type<op>   unary_op
 %type<expr> mul_expr add_expr shift_expr rel_expr eq_expr and_expr xor_expr or_expr land_expr lor_expr
+%type<expr> land_lhs lor_lhs
 %type<expr> cond_expr
+%type<cond> cond_if cond_then
 %type<expr> expr
 %type<op>   assign_op
 
@@ -238,42 +241,82 @@ or_expr:
 
 land_expr:
 		               or_expr
-	|	land_expr LAND or_expr
+	|	land_lhs or_expr
 		{
 			$$.n = 0
 			$$.s = ""
-			if l, ok := expand(yylex, $1); ok && l != 0 {
-				if r, ok := expand(yylex, $3); ok && r != 0 {
+			if $1.n != 0 {
+				if r, ok := expand(yylex, $2); ok && r != 0 {
 					$$.n = 1
 				}
 			}
+			yylex.(*lexer).leave()
+		}
+
+land_lhs:
+		land_expr LAND
+		{
+			// the right operand is evaluated only if the left one is
+			// not equal to 0
+			$$.n, _ = expand(yylex, $1)
+			$$.s = ""
+			yylex.(*lexer).enter($$.n != 0)
 		}
 
 lor_expr:
 		             land_expr
-	|	lor_expr LOR land_expr
+	|	lor_lhs land_expr
 		{
 			$$.n = 0
 			$$.s = ""
-			if l, ok := expand(yylex, $1); ok && l != 0 {
+			if $1.n != 0 {
 				$$.n = 1
-			} else if r, ok := expand(yylex, $3); ok && r != 0 {
+			} else if r, ok := expand(yylex, $2); ok && r != 0 {
 				$$.n = 1
 			}
+			yylex.(*lexer).leave()
+		}
+
+lor_lhs:
+		lor_expr LOR
+		{
+			// the right operand is evaluated only if the left one is
+			// equal to 0
+			$$.n, _ = expand(yylex, $1)
+			$$.s = ""
+			yylex.(*lexer).enter($$.n == 0)
 		}
 
 cond_expr:
 		lor_expr
-	|	lor_expr '?' expr ':' cond_expr
+	|	cond_then cond_expr
 		{
 			$$.s = ""
-			if l, ok := expand(yylex, $1); ok {
-				if l != 0 {
-					$$.n, _ = expand(yylex, $3)
+			if $1.ok {
+				if $1.n != 0 {
+					$$.n = $1.x
 				} else {
-					$$.n, _ = expand(yylex, $5)
+					$$.n, _ = expand(yylex, $2)
 				}
 			}
+			yylex.(*lexer).leave()
+		}
+
+cond_if:
+		lor_expr '?'
+		{
+			// only one of the second and the third operand is evaluated
+			$$.n, $$.ok = expand(yylex, $1)
+			yylex.(*lexer).enter($$.ok && $$.n != 0)
+		}
+
+cond_then:
+		cond_if expr ':'
+		{
+			$$ = $1
+			$$.x, _ = expand(yylex, $2)
+			yylex.(*lexer).leave()
+			yylex.(*lexer).enter($$.ok && $$.n == 0)
 		}
 
 expr:
@@ -368,10 +411,19 @@ type expr struct {
 	s string
 }
 
+// cond is the state of a conditional expression: the value of the first
+// operand, whether it has been evaluated successfully, and the value of
+// the second operand.
+type cond struct {
+	n  int
+	ok bool
+	x  int
+}
+
 // store assigns n to the variable named by the name, unless an error
 // was reported by the parser: no assignment is performed after a fault.
 func store(yylex yyLexer, name string, n int) {
-	if l := yylex.(*lexer); !l.faulted {
+	if l := yylex.(*lexer); !l.faulted && !l.dead() {
 		l.env.Set(name, strconv.Itoa(n))
 	}
 }
@@ -383,6 +435,8 @@ func errLValue(op string) string {
 func expand(yylex yyLexer, x expr) (int, bool) {
 	if x.s == "" {
 		return x.n, true
+	} else if yylex.(*lexer).dead() {
+		return 0, true
 	} else if v, set := yylex.(*lexer).env.Get(x.s); !set || v.Value == "" {
 		return 0, true
 	} else if n, err := strconv.ParseInt(v.Value, 0, 0); err != nil {
@@ -394,6 +448,9 @@ func expand(yylex yyLexer, x expr) (int, bool) {
 }
 
 func calculate(yylex yyLexer, l expr, op string, r expr) (x expr, ok bool) {
+	if yylex.(*lexer).dead() {
+		return x, true
+	}
 	if l, ok1 := expand(yylex, l); ok1 {
 		if r, ok2 := expand(yylex, r); ok2 {
 			ok = true
